@@ -40,7 +40,7 @@ def gen(rng, tier):
     if dense:
         ops = (set(common.DENSE_PAST_OPS) | {'eventually_b', 'always_b'}) - {'log'} if future else set(common.DENSE_PAST_OPS)   # log: F08
     else:
-        ops = (set(common.PAST_OPS) | {'eventually_b', 'always_b', 'until_b', 'next', 's_next'}) - {'log'} if future else set(common.PAST_OPS)
+        ops = (set(common.PAST_OPS) | {'eventually_b', 'always_b', 'until_b', 'unless_b', 'next', 's_next'}) - {'log'} if future else set(common.PAST_OPS)
     for _ in range(100):
         cfg = sg.GenCfg(vars=vars_, ops=ops, max_depth=rng.randint(2, 4), max_bound=rng.choice([2, 4, 6]),
                         p_reuse=rng.choice([0.0, 0.3]))
